@@ -102,6 +102,48 @@ func familyConfig(family string, rng *rand.Rand) Scenario {
 			sc.Pids = append(sc.Pids, "u3")
 			sc.Seed = append(sc.Seed, sut.SeedUser{Pid: "u3", Pw: 3, Conf: true})
 		}
+	case "full", "twofa", "oauth":
+		must := []string{"auth", "logout"}
+		opt := []string{"lock", "confirm", "register", "recover", "otp", "oauth2", "totp", "sms", "recovery"}
+		pOpt := 0.6
+		if family == "twofa" {
+			must = []string{"auth", "logout", "totp", "sms", "recovery"}
+			opt = []string{"lock", "confirm", "recover", "otp"}
+		}
+		if family == "oauth" {
+			must = []string{"auth", "logout", "oauth2"}
+			opt = []string{"lock", "confirm", "register"}
+		}
+		ms := modsFrom(rng, must, opt, pOpt)
+		switch rng.Intn(3) {
+		case 0:
+			ms = append(ms, "remember")
+		case 1:
+			ms = append(ms, "expire")
+		}
+		rng.Shuffle(len(ms), func(i, j int) { ms[i], ms[j] = ms[j], ms[i] })
+		c.Modules = ms
+		c.EmailAuth = rng.Intn(3) == 0
+		u1 := sut.SeedUser{Pid: "u1", Pw: 1, Conf: rng.Intn(5) != 0}
+		u2 := sut.SeedUser{Pid: "u2", Pw: 2, Conf: rng.Intn(5) != 0}
+		if has(ms, "totp") && rng.Intn(2) == 0 {
+			u1.Totp, u1.Rc = true, true
+		}
+		if has(ms, "sms") {
+			switch rng.Intn(3) {
+			case 0:
+				u2.Sms, u2.Rc = 1, true
+			case 1:
+				if !u1.Totp {
+					u1.Sms, u1.Rc = 2, true
+				}
+			}
+		}
+		if has(ms, "otp") {
+			u1.Otps = rng.Intn(3)
+			u2.Otps = rng.Intn(6)
+		}
+		sc.Seed = []sut.SeedUser{u1, u2}
 	}
 	sc.Cfg = c
 	return sc
@@ -131,6 +173,24 @@ func (g *genCtx) nextEvent(family string) sut.Event {
 	}
 	if c.Has("expire") {
 		acts = append(acts, "AppKey", "Probe", "Tick")
+	}
+	if c.Has("otp") {
+		acts = append(acts, "OtpLoginPost", "OtpLoginPost", "OtpAdd", "OtpAdd", "OtpClear")
+	}
+	if c.Has("oauth2") {
+		acts = append(acts, "OAuthStart", "OAuthStart", "OAuthCallback", "OAuthCallback", "OAuthCallback")
+	}
+	if c.Has("totp") {
+		acts = append(acts, "TotpSetup", "TotpSetupGet", "TotpConfirm", "TotpConfirm", "TotpRemove", "TotpValidate", "TotpValidate", "TotpValidate")
+	}
+	if c.Has("sms") {
+		acts = append(acts, "SmsSetup", "SmsSetupGet", "SmsConfirm", "SmsConfirm", "SmsRemove", "SmsValidate", "SmsValidate", "SmsValidate")
+	}
+	if c.Has("recovery") {
+		acts = append(acts, "RecoveryRegen")
+	}
+	if c.EmailAuth && (c.Has("totp") || c.Has("sms")) {
+		acts = append(acts, "EmailVerifyStart", "EmailVerifyEnd", "EmailVerifyEnd")
 	}
 	acts = append(acts, "UpdatePassword", "AppKey")
 	e.Act = acts[g.rng.Intn(len(acts))]
@@ -209,6 +269,95 @@ func (g *genCtx) nextEvent(family string) sut.Event {
 		e.Junk = g.pick("garbage", "nosep", "forged", "hash")
 	case "AppKey":
 		e.K = g.pick("app1", "app2")
+	case "OtpLoginPost":
+		e.Pid = g.pid()
+		e.Tok = g.idOrJunk(iss["otp"], 0.3)
+		if e.Tok <= 0 {
+			e.Tok = -1
+			e.Junk = g.pick("empty", "garbage", "hash")
+		}
+		if ot := o.Db[e.Pid].Otps; len(ot) > 0 && g.chance(0.5) {
+			e.Tok = ot[g.rng.Intn(len(ot))]
+			e.Junk = ""
+		}
+		e.Rm = g.chance(0.3)
+	case "OAuthStart":
+		e.Prov = g.pick("pa", "pa", "pb")
+		e.Rm = g.chance(0.4)
+		if g.chance(0.3) {
+			e.Redir = "redir"
+		}
+	case "OAuthCallback":
+		e.Prov = g.pick("pa", "pa", "pb")
+		e.Outcome = g.pick("x", "x", "y", "error", "exchangeFail")
+		e.Tok = g.idOrJunk(iss["os"], 0.25)
+		if st := o.Sess[e.B].OState; st > 0 && g.chance(0.6) {
+			e.Tok = st
+		}
+		if e.Tok <= 0 {
+			e.Tok = -1
+			e.Junk = g.pick("empty", "garbage", "nostate")
+		}
+	case "TotpConfirm", "TotpRemove", "TotpValidate":
+		// which secret the code is generated from: the relevant one, or another
+		rel := o.Sess[e.B].TotpSetup
+		if e.Act != "TotpConfirm" {
+			who := o.Sess[e.B].Uid
+			if who == "none" {
+				who = o.Sess[e.B].TotpPend
+			}
+			if who != "none" {
+				rel = o.Db[who].Totp
+			}
+		}
+		e.Tok = rel
+		if rel <= 0 || g.chance(0.2) {
+			e.Tok = g.idOrJunk(iss["ts"], 0.2)
+		}
+		e.Code = g.rng.Intn(5) - 1 // -1 junk, 0 empty, 1..3 valid codes
+		if g.chance(0.5) {
+			e.Code = 1 + g.rng.Intn(3)
+		}
+		if e.Act != "TotpConfirm" && g.chance(0.25) {
+			g.rcArgs(&e, o)
+		}
+		if e.Act == "TotpValidate" && g.chance(0.2) {
+			e.Redir = "redir"
+		}
+	case "SmsSetup":
+		e.Phone = g.rng.Intn(3)
+	case "SmsConfirm", "SmsRemove", "SmsValidate":
+		e.Code = o.Sess[e.B].SmsCode
+		switch {
+		case g.chance(0.25):
+			e.Code = 0 // ask for a (re)send
+		case g.chance(0.25):
+			e.Code = g.idOrJunk(iss["sc"], 0.4)
+			if e.Code == 0 {
+				e.Code = -1
+			}
+		}
+		if e.Code < 0 {
+			e.Junk = "garbage"
+		}
+		if e.Act != "SmsConfirm" && g.chance(0.25) {
+			g.rcArgs(&e, o)
+		}
+		if e.Act == "SmsValidate" && g.chance(0.2) {
+			e.Redir = "redir"
+		}
+	case "EmailVerifyStart":
+		e.Kind = g.pick("totp", "sms")
+	case "EmailVerifyEnd":
+		e.Kind = g.pick("totp", "sms")
+		e.Tok = o.Sess[e.B].TfaTok
+		if e.Tok <= 0 || g.chance(0.3) {
+			e.Tok = g.idOrJunk(iss["tt"], 0.5)
+			if e.Tok <= 0 {
+				e.Tok = -1
+				e.Junk = g.pick("empty", "garbage", "missing")
+			}
+		}
 	}
 	return e
 }
@@ -255,4 +404,28 @@ func randomScenarioOnce(family string, depth int, rng *rand.Rand) (lines []Line,
 		return nil, errPeriod
 	}
 	return lines, nil
+}
+
+// rcArgs fills in a recovery code: usually one the relevant account still holds.
+func (g *genCtx) rcArgs(e *sut.Event, o sut.Obs) {
+	who := o.Sess[e.B].Uid
+	if who == "none" {
+		who = o.Sess[e.B].TotpPend
+	}
+	if who == "none" {
+		who = o.Sess[e.B].SmsPend
+	}
+	if who == "none" || g.chance(0.2) {
+		who = g.pick("u1", "u2")
+	}
+	d := o.Db[who]
+	e.Code = 0
+	switch {
+	case d.Rcg > 0 && len(d.RcLeft) > 0 && g.chance(0.7):
+		e.G, e.Rc = d.Rcg, d.RcLeft[g.rng.Intn(len(d.RcLeft))]
+	case d.Rcg > 0 && g.chance(0.5):
+		e.G, e.Rc = d.Rcg, 1+g.rng.Intn(10) // possibly already used
+	default:
+		e.G, e.Rc, e.Junk = 0, -1, g.pick("garbage", "hash")
+	}
 }
